@@ -71,10 +71,16 @@ structure Inst where
   /-- constructed over the instrumented sample type of the harness (C19) -/
   tracked : Bool := false
 
+/-- first stage of a source pipe: an adapter tree, or a scripted source that may answer `none` (an end marker) and
+later items again (not fused) — the pipe must poll it on every pull and add no state of its own -/
+inductive PSrc where
+  | expr (e : Sources.Expr V)
+  | burst (items : List (Option V))
+
 structure PipeInst where
   shape : PShape
   leaves : List (St V)
-  source : Option (Sources.Expr V) := none
+  source : Option PSrc := none
   sink : Option (SinkModels.Sk V) := none
   /-- inputs fed so far (`f` / `sink`), oldest first -/
   log : List V := []
